@@ -205,8 +205,9 @@ FRONTMATTER = st.one_of(
 
 
 def document(depth: int = 3, avoid=frozenset(), zones: bool = True, comments: bool = True, max_nodes: int = 5,
-             frontmatter: bool = True, sentinel: bool = True, meta_nested: bool = True, empty_containers: bool = True):
-    mval = value(1, avoid, False, True)
+             frontmatter: bool = True, sentinel: bool = True, meta_nested: bool = True, empty_containers: bool = True,
+             meta_zones: bool = False):
+    mval = value(1, avoid, meta_zones, True)
     nested = st.lists(st.tuples(ident(6), value(1, avoid, False, False)).map(list), min_size=1, max_size=3,
                       unique_by=lambda kv: kv[0]).map(lambda kv: {"nested": kv})
     mitem = st.tuples(st.one_of(ident(7), st.sampled_from(["TYPE", "VERSION", "STATUS", "CONTRACT"])),
